@@ -41,6 +41,7 @@ type epHarness struct {
 	serial  int
 	pushed  *balancer.State
 	lastPk  balancer.Picker
+	oldPks  []balancer.Picker // superseded pickers, most recently superseded first
 	picked  string
 }
 
@@ -104,7 +105,13 @@ func (cc *epCC) UpdateAddresses(balancer.SubConn, []resolver.Address)    {}
 func (cc *epCC) ResolveNow(resolver.ResolveNowOptions)                   {}
 func (cc *epCC) Target() string                                          { return "verif" }
 func (cc *epCC) MetricsRecorder() stats.MetricsRecorder                  { return istats.NewMetricsRecorderList(nil) }
-func (cc *epCC) UpdateState(s balancer.State)                            { cc.h.pushed = &s; cc.h.lastPk = s.Picker }
+func (cc *epCC) UpdateState(s balancer.State) {
+	if cc.h.lastPk != nil {
+		cc.h.oldPks = append([]balancer.Picker{cc.h.lastPk}, cc.h.oldPks...) // superseded, possibly still in use
+	}
+	cc.h.pushed = &s
+	cc.h.lastPk = s.Picker
+}
 
 func (h *epHarness) rec(kind string, id int) {
 	h.mu.Lock()
@@ -194,14 +201,16 @@ func (h *epHarness) showPush() string {
 	return fmt.Sprintf("%s;%s;%s;%d", lbLetter(st.ConnectivityState), lbJoin(cl), lbJoin(pl), next)
 }
 
-func (h *epHarness) pickOnce() (out string) {
+func (h *epHarness) pickOnce() (out string) { return h.pickOn(h.lastPk) }
+
+func (h *epHarness) pickOn(pk balancer.Picker) (out string) {
 	defer func() {
 		if r := recover(); r != nil {
 			out = "nil" // Pick on the nil Picker of a child that never reported
 		}
 	}()
 	h.picked = ""
-	_, err := h.lastPk.Pick(balancer.PickInfo{})
+	_, err := pk.Pick(balancer.PickInfo{})
 	if h.picked != "" {
 		return h.picked
 	}
@@ -291,6 +300,16 @@ func (h *epHarness) Op(f []string) string {
 	case "close":
 		h.bal.Close()
 		return finish()
+	case "pickold":
+		g := lbAtoi(f[1])
+		if g >= len(h.oldPks) {
+			return "bad-op"
+		}
+		var out []string
+		for i := 0; i < lbAtoi(f[2]); i++ {
+			out = append(out, h.pickOn(h.oldPks[g]))
+		}
+		return "picks=" + lbJoin(out)
 	case "pick", "wrappick":
 		if h.lastPk == nil {
 			return "picks=-"
